@@ -4,6 +4,7 @@ package main
 
 import (
 	"fmt"
+	"sort"
 )
 
 const (
@@ -210,7 +211,7 @@ func fanBytes(m int, seed int64, variant int) []int {
 }
 
 // fanBase: concrete ops that build a root with m children, optionally grown to `from` first and deleted down.
-func fanBase(m, from int, seed int64, variant int) [][2]int {
+func fanBase(m, from int, seed int64, variant int, low bool) [][2]int {
 	n := m
 	if from > m {
 		n = from
@@ -220,26 +221,40 @@ func fanBase(m, from int, seed int64, variant int) [][2]int {
 	for _, b := range bs {
 		ops = append(ops, [2]int{opInsertC, cKey1(b)})
 	}
+	if low {
+		// shrink by deleting the smallest branch bytes (the first/last occupied slots of the node change)
+		sorted := append([]int(nil), bs...)
+		sort.Ints(sorted)
+		for i := 0; i < n-m; i++ {
+			ops = append(ops, [2]int{opDeleteC, cKey1(sorted[i])})
+		}
+		return ops
+	}
 	for i := n - 1; i >= m; i-- {
 		ops = append(ops, [2]int{opDeleteC, cKey1(bs[i])})
 	}
 	return ops
 }
 
-type fanShape struct{ m, from int }
+type fanShape struct {
+	m, from int
+	low     bool
+}
 
 // fan shapes step through every growth and shrink threshold of the node classes.
 func fanShapes(e *Engine, full bool) []fanShape {
 	m4 := e.constInt("maxNode4", 4)
 	m16 := e.constInt("maxNode16", 16)
 	m48 := e.constInt("maxNode48", 48)
-	out := []fanShape{{2, 0}, {m4 - 1, 0}, {m4, 0}, {m16, 0}, {m48, 0}, // about to grow
-		{m4, m4 + 1}, {2, m4 + 1}, // node16 shrunk back towards node4 and further
-		{13, m16 + 1}, {12, m16 + 1}, // node48 -> node16 threshold
-		{38, m48 + 1}, {37, m48 + 1}, // node256 -> node48 threshold
+	out := []fanShape{{2, 0, false}, {m4 - 1, 0, false}, {m4, 0, false}, {m16, 0, false}, {m48, 0, false}, // about to grow
+		{m4, m4 + 1, false}, {2, m4 + 1, false}, // node16 shrunk back towards node4 and further
+		{13, m16 + 1, false}, {12, m16 + 1, false}, // node48 -> node16 threshold
+		{38, m48 + 1, false}, {37, m48 + 1, false}, // node256 -> node48 threshold
+		{38, m48 + 1, true}, {13, m16 + 1, true}, {m4, m4 + 1, true}, // the same, deleting the smallest bytes
 	}
 	if full {
-		out = append(out, fanShape{m4 + 1, 0}, fanShape{m16 - 1, 0}, fanShape{m16 + 1, 0}, fanShape{m48 - 1, 0}, fanShape{m48 + 1, 0}, fanShape{3, m4 + 1}, fanShape{1, m4}, fanShape{m48 + 8, 0})
+		out = append(out, fanShape{m4 + 1, 0, false}, fanShape{m16 - 1, 0, false}, fanShape{m16 + 1, 0, false}, fanShape{m48 - 1, 0, false}, fanShape{m48 + 1, 0, false},
+			fanShape{3, m4 + 1, false}, fanShape{1, m4, false}, fanShape{m48 + 8, 0, false}, fanShape{37, m48 + 1, true}, fanShape{12, m16 + 1, true}, fanShape{3, m4 + 1, true})
 	}
 	return out
 }
@@ -253,8 +268,11 @@ func fFan(c *CheckRun, kind int, nSym int, variants int, full bool) []histB {
 	var out []histB
 	for _, sh := range fanShapes(c.Eng, full) {
 		for v := 0; v < variants; v++ {
-			base := fanBase(sh.m, sh.from, c.Seed, v)
+			base := fanBase(sh.m, sh.from, c.Seed, v, sh.low)
 			label := fmt.Sprintf("F-fan m=%d from=%d v=%d", sh.m, sh.from, v)
+			if sh.low {
+				label = fmt.Sprintf("F-fan m=%d from=%d (smallest deleted) v=%d", sh.m, sh.from, v)
+			}
 			big := sh.m > 17 || sh.from > 17
 			if big {
 				someByte := 0
@@ -287,6 +305,78 @@ func fFan(c *CheckRun, kind int, nSym int, variants int, full bool) []histB {
 			for _, pat := range pats {
 				ops := append(append([][2]int(nil), base...), pat...)
 				out = append(out, histB{kind: kind, ops: ops, probes: []int{aSpec(0, 1)}, label: label, mid: sh.m > 8 || sh.from > 8})
+			}
+		}
+	}
+	return out
+}
+
+func cKeyStem(p, b int) int  { return 1<<29 | p<<16 | b }
+func cKeyStemOnly(p int) int { return 1<<29 | 1<<28 | p<<16 }
+
+// fFanStem: the fan-out node sits below the root and has a compressed path: keys stem(p)+b for m sibling bytes b
+// plus the key stem(p) itself (its terminator occupies the 0x00 slot of the fan-out node), and one unrelated
+// key so that the root branches. stem(p) is the concrete stem shared with the symbolic key shapes.
+// Probes: the stem (concrete), stem + one symbolic byte, the stem with its last byte symbolic + one byte.
+func fFanStem(c *CheckRun, kind int, full bool) []histB {
+	var out []histB
+	mp := c.Eng.constInt("maxPrefixLen", 10)
+	type st struct {
+		sh fanShape
+		p  int
+	}
+	shapes := []st{{fanShape{m: 17}, 1}, {fanShape{m: 49}, 1}, {fanShape{m: 12, from: 17}, mp + 2}, {fanShape{m: 37, from: 49}, mp + 1}}
+	if full {
+		shapes = append(shapes, st{fanShape{m: 5}, mp + 2}, st{fanShape{m: 13, from: 17}, mp}, st{fanShape{m: 38, from: 49}, mp + 2}, st{fanShape{m: 48}, mp + 3},
+			st{fanShape{m: 3, from: 5}, mp + 2}, st{fanShape{m: 17}, mp + 2}, st{fanShape{m: 49}, mp + 2}, st{fanShape{m: 2, from: 5}, mp + 1})
+	}
+	for _, s := range shapes {
+		sh, p := s.sh, s.p
+		tot := sh.m
+		if sh.from > tot {
+			tot = sh.from
+		}
+		var bs []int
+		for _, b := range fanBytes(tot+1, c.Seed, 2) {
+			if b != 0 && len(bs) < tot {
+				bs = append(bs, b) // byte 0x00 is left to the terminator of the stem key itself
+			}
+		}
+		var ops [][2]int
+		ops = append(ops, [2]int{opInsertC, cKey1(0x10)})
+		for _, b := range bs {
+			ops = append(ops, [2]int{opInsertC, cKeyStem(p, b)})
+		}
+		ops = append(ops, [2]int{opInsertC, cKeyStemOnly(p)})
+		for i := tot - 1; i >= sh.m; i-- {
+			ops = append(ops, [2]int{opDeleteC, cKeyStem(p, bs[i])})
+		}
+		label := fmt.Sprintf("F-fan-stem m=%d from=%d stem=%d", sh.m, sh.from, p)
+		for _, pr := range []int{cKeyStemOnly(p) | 1<<30, aSpec(p, 1), aSpecMut(p, 1, p-1)} {
+			out = append(out, histB{kind: kind, ops: ops, probes: []int{pr}, label: label, big: true, noSym: true})
+		}
+		// one symbolic update under the stem, concrete probe
+		out = append(out, histB{kind: kind, ops: append(append([][2]int(nil), ops...), [2]int{opDelete, aSpec(p, 1)}), probes: []int{cKeyStemOnly(p) | 1<<30}, label: label + " C", big: true})
+	}
+	return out
+}
+
+// fLongDeep: like F-long but the long compressed path sits below a branch point (depth > 0): three keys
+// [symbolic byte]+stem(p)+1 byte (the solver chooses which of them share their first byte), then one more
+// operation with a key that carries the concrete stem byte first and diverges inside the stem.
+func fLongDeep(kind int, stems []int, rich bool) []histB {
+	var out []histB
+	for _, p := range stems {
+		m0 := aSpecMut(p+1, 1, 0)
+		base := [][2]int{{opInsert, m0}, {opInsert, m0}, {opInsert, m0}}
+		poss := []int{p / 2, p}
+		if rich {
+			poss = []int{1, p / 2, p - 1, p}
+		}
+		for _, pos := range poss {
+			for _, k := range []int{opInsert, opDelete} {
+				ops := append(append([][2]int(nil), base...), [2]int{k, aSpecMut(p+1, 1, pos)})
+				out = append(out, histB{kind: kind, ops: ops, probes: []int{m0}, label: fmt.Sprintf("F-long-deep p=%d", p)})
 			}
 		}
 	}
